@@ -23,10 +23,11 @@ NO_SCRATCH = "--no-scratch" in flags
 sd = os.path.join(wt, "seeded", n)
 meta = json.load(open(os.path.join(sd, "meta.json")))
 env = dict(os.environ, CARGO_NET_OFFLINE="true")
+NAME = next((a.split("=",1)[1] for a in sys.argv[1:] if a.startswith("--name=")), None)
 
 
 def sh(cmd, cwd, timeout=3600):
-    p = subprocess.run(cmd, shell=True, cwd=cwd, env=env, stdout=subprocess.PIPE, stderr=subprocess.STDOUT, timeout=timeout)
+    p = subprocess.run(cmd, shell=True, cwd=cwd, env=dict(env, **({"VERIF_REPO_LOCK_HELD": "1"} if os.environ.get("VERIF_REPO_LOCK_HELD") else {})), stdout=subprocess.PIPE, stderr=subprocess.STDOUT, timeout=timeout)
     return p.returncode, p.stdout.decode("utf-8", "replace")
 
 
@@ -75,6 +76,12 @@ if NO_REPO:
     sys.exit(0)
 
 # --- /repo
+# exclusive lock on /repo while it is mutated (ordinary ./check runs hold it shared)
+import fcntl
+os.makedirs("/verif/.work", exist_ok=True)
+_repo_lock = open("/verif/.work/repo.lock", "w")
+fcntl.flock(_repo_lock, fcntl.LOCK_EX)
+os.environ["VERIF_REPO_LOCK_HELD"] = "1"
 rc, out = sh("git status --porcelain --untracked-files=no", "/repo")
 if out.strip():
     res["error"] = "/repo not clean: " + out[:200]
@@ -107,7 +114,7 @@ rc, out = sh("git status --porcelain --untracked-files=no", "/repo")
 res["repo_clean_after"] = out.strip() == ""
 
 if ok:
-    dst = os.path.join("/verif/seeded", "%s-%s" % (meta.get("property", "X"), n))
+    dst = os.path.join("/verif/seeded", NAME or "%s-%s" % (meta.get("property", "X"), n))
     os.makedirs(dst, exist_ok=True)
     shutil.copyfile(patch, os.path.join(dst, "patch.diff"))
     for f in os.listdir(sd):
